@@ -14,6 +14,8 @@ func (s *scn) applyExtra(st CStep) {
 	switch st.Op {
 	case "call":
 		s.applyCall(st)
+	case "mut":
+		s.applyMutate(st)
 	default:
 		applyGov(s, st)
 	}
